@@ -412,6 +412,18 @@ func TestC05Corpus(t *testing.T) {
 			offs[s.Off] = true
 		}
 
+		// A test file that is only compiled (host-dependent directory, or not stable
+		// between two runs) cannot be decorated soundly: a comment that stops ONE @test
+		// body from compiling does not fail the file's compilation (ego test turns it
+		// into that test's FAIL at run time), so "the compiler accepts the decorated
+		// file" could not be observed. E.g. `rest.New(). /* c */` + newline + `Base(..)`
+		// is rejected by the compiler (invalid identifier) yet the file compiles.
+		if isTest && runner != RunTest {
+			r.Count("decorated.skipped_compile_only_test_file", 1)
+
+			continue
+		}
+
 		// one PRNG stream per file: what a file is decorated with does not depend on
 		// how the corpus is sharded
 		rng := vh.Rand("c05-corpus/" + rel)
